@@ -165,7 +165,9 @@ def native_renaming(run, n_models, only_styles=None):
         sc2.process_noise = {ren[k]: v for k, v in sc.process_noise.items()}
         sc2.calibration_map = {ren[k]: v for k, v in sc.calibration_map.items()}
         try:
-            py2, ekf2 = scenarios.build_ekf(sc2, container="list")
+            # every other twin is additionally built with ui.Model(proactive_simplify=True) (off by default): its update
+            # expressions, given in shuffled order, are rewritten per state before compilation - the named outputs stay the same
+            py2, ekf2 = scenarios.build_ekf(sc2, container="list", proactive_simplify=(t % 2 == 0))
         except Exception as e:
             fails += 1
             run.findings.append(Finding("C13.py.native_renaming", "list-container-refused", f"the renamed twin declared with lists instead of sets is refused: {type(e).__name__}: {e}", {"language": "python", "inputs": {"seed": run.seed + t, "container": "list"}, "model_definition": sc2.describe()}, True))
